@@ -91,18 +91,18 @@ fn watch_start(case_json: String) {
             std::thread::sleep(Duration::from_millis(500));
             let stuck = {
                 let w = WATCH.lock().unwrap();
-                w.iter().find(|(_, t, _)| t.elapsed() > Duration::from_secs(5)).map(|(_, _, c)| c.clone())
+                w.iter().find(|(_, t, _)| t.elapsed() > Duration::from_secs(15)).map(|(_, _, c)| c.clone())
             };
             if let Some(c) = stuck {
                 let dir = verif_root().join("replays");
                 let _ = std::fs::create_dir_all(&dir);
                 let body = format!(
-                    "{{\"property\":\"C12\",\"lenient\":false,\"expect\":\"violation:C12/does-not-terminate\",\"detail\":\"no result within 5 s\",\"seed\":0,\"case\":{}}}",
+                    "{{\"property\":\"C12\",\"lenient\":false,\"expect\":\"violation:C12/does-not-terminate\",\"detail\":\"no result within 15 s\",\"seed\":0,\"case\":{}}}",
                     c
                 );
                 let path = dir.join(format!("C12-{:016x}.json", fnv64(body.as_bytes())));
                 let _ = std::fs::write(&path, body);
-                println!("violation C12/does-not-terminate: a distribution call did not return within 5 s");
+                println!("violation C12/does-not-terminate: a distribution call did not return within 15 s");
                 println!("VIOLATION property=C12 replay={}", path.display());
                 std::process::exit(1);
             }
@@ -129,7 +129,7 @@ impl Prop for C12 {
         "generated direct inputs of calculate_delegations / calculate_undelegations: list length 0..12 (sometimes up to 60), delegations from classes (zeros, ties, near-even +-1, tiny, up to 2^100), as generated / ascending / descending order, amounts 0, 1, remainders mod n, the total, total+1, about half, random, huge (sum + amount < 2^127); non-trivial = n >= 2, non-uniform delegations, amount > 0; distinct by hash of the input".into()
     }
     fn assumptions(&self) -> Vec<String> {
-        vec!["sum of delegations + amount < 2^127 (u128-safe range of the functions' own arithmetic)".into(), "termination is judged by a 5 s watchdog per call".into()]
+        vec!["sum of delegations + amount < 2^127 (u128-safe range of the functions' own arithmetic)".into(), "termination is judged by a 15 s watchdog per call".into()]
     }
     fn strategy(&self, _tier: Tier) -> BoxedStrategy<Case> {
         strategy()
